@@ -84,6 +84,9 @@ def payload(kind):
             _CACHE[kind] = bytes(b)
         elif kind == "roland":
             _CACHE[kind] = roland_payload()
+        elif kind == "roland_cut":
+            # the image file ends 5000 bytes into the only cluster of OVER (cluster 26, the physically last one)
+            _CACHE[kind] = roland_payload()[:R.DATA_FAT_OFF + R.CLUSTER * 26 + 5000]
         elif kind.startswith("roland_co"):
             # numeric coincidence: the left half's start point (in bytes) equals the address of the right half's first cluster
             # in the data area (k clusters), so that position values of different coordinate systems meet while both are read
@@ -151,7 +154,7 @@ class Ctx:
 
     def do(self, part, op):
         """returns bytes/str observation of that step"""
-        if self.kind.endswith("_scratched") and op[0] in ("read", "seek"):
+        if self.kind.endswith(("_scratched", "_cut")) and op[0] in ("read", "seek"):
             # on a damaged image a call may fail; that it fails (and how) is then the observation of this step
             try:
                 return self._do(part, op)
@@ -327,6 +330,14 @@ def configs(quick):
         P(T1, ("read", 4096), ("read", -1)), P(T2, ("read", 1), ("read", -1)), P(T3, ("seek", 2352), ("read", None))]})
     out.append({"name": "roland:read-to-end", "kind": "roland", "parts": [
         P(R0, ("read", 4096), ("read", -1)), P(R1, ("read", 2), ("read", -1)), P(R2, ("read", None))]})
+    # an incomplete Roland image: two streams of the sample the file ends in, read with different block sizes (one of them
+    # runs into the end of the file first), next to a stream of an intact sample
+    OV = ("VOL", "PERF0", "OVER")
+    out.append({"name": "roland_cut:same-sample-twice", "kind": "roland_cut", "parts": [
+        P(OV, ("read", 4096), ("read", 4096), ("read", 4096)), P(OV, ("read", 1000), ("read", 3000), ("read", 700), view=1),
+        P(("VOL", "PERF0", "WHOLE"), ("read", 4096))]})
+    out.append({"name": "roland_cut:2x3", "kind": "roland_cut", "parts": [
+        P(OV, ("read", 6000), ("seek", 0), ("read", 4096)), P(OV, ("read", 2048), ("read", 2048), ("read", 2048), view=1)]})
     for kind in ("akai", "akai2352"):
         out.append({"name": kind + ":read-to-end", "kind": kind, "parts": [
             P(A1, ("read", 4096), ("read", -1)), P(A2, ("seek", 3), ("read", None)), P(AB, ("read", 2), ("read", -1))]})
@@ -429,7 +440,7 @@ class Check(CheckBase):
     title = "Sample streams sharing one image file handle do not disturb one another"
     rule = ("per configuration (AKAI raw and inside MODE1/2352: two files of one partition, one fragmented, one file of a "
             "second partition, an L/R pair through the transcoder (also on an image file that ends inside the right half), the raw-sector image with one wiped sync pattern inside the first file, a three-sector pair with a contiguous left and a fragmented right half, lazy directory listings; Roland: forward + reverse-mode "
-            "sample + listing of another performance, a shared sample with a leading-cluster offset, two samples living in one fragmented chain, two reverse-mode samples and a reverse-mode L/R pair, four pairs in which the left half's start point equals the address of the right half's first cluster; CDDA: three tracks; two streams of ONE sample obtained by asking the element twice -- Roland forward windows inside / equal to / one word longer than their file, a reverse-mode sample (an element that hands out the same object again has one stream: nothing to compare)): ALL interleavings of the participants' call programs "
+            "sample + listing of another performance, a shared sample with a leading-cluster offset, two samples living in one fragmented chain, two reverse-mode samples and a reverse-mode L/R pair, four pairs in which the left half's start point equals the address of the right half's first cluster; CDDA: three tracks; two streams of ONE sample obtained by asking the element twice -- Roland forward windows inside / equal to / one word longer than their file, a reverse-mode sample, the sample an incomplete Roland image ends in (an element that hands out the same object again has one stream: nothing to compare)): ALL interleavings of the participants' call programs "
             "(block reads of 1, 2, 4096, sector-1, sector+1 bytes and of 6146..30000 bytes over files of five sectors / four clusters, sector-aligned reads of a contiguous file that end "
             "exactly on a sector boundary, read-to-end requests, absolute seeks, ls of unrealised directories, transcoder "
             "steps) on one fresh image object per schedule; thorough adds 3x3-step programs over all 25 block-size pairs. "
